@@ -169,8 +169,43 @@ def units(tier):
 
 # ------------------------------------------------------------------ generic goal construction
 def val(o): return o.r if isinstance(o, RV) else o
+def _tz(t):
+    """number of syntactically known trailing zero bits of a simplified bit-vector term"""
+    if z3.is_bv_value(t):
+        v = t.as_long(); return t.size() if v == 0 else (v & -v).bit_length() - 1
+    if z3.is_app(t) and t.decl().kind() == z3.Z3_OP_CONCAT:
+        n = 0
+        for c in reversed(t.children()):
+            k = _tz(c); n += k
+            if k < c.size(): break
+        return n
+    return 0
+_DB = {}
+def demand_mul(t):
+    """demanded-bits rewriting of extract(h, l, x * y): only the low h+1 bits of the factors matter and known trailing zeros of a factor shift the product
+    (clang evaluates one lane of a <4 x i8> multiply on the packed 32-bit registers).  Every step is an identity of modular arithmetic."""
+    k = t.get_id()
+    if k in _DB: return _DB[k][1]
+    r = t
+    if z3.is_app(t) and t.num_args():
+        ch = [demand_mul(c) for c in t.children()]
+        if t.decl().kind() == z3.Z3_OP_EXTRACT and z3.is_app(ch[0]) and ch[0].decl().kind() == z3.Z3_OP_BMUL and ch[0].num_args() == 2:
+            h, l = t.params(); x, y = ch[0].arg(0), ch[0].arg(1)
+            if h + 1 < x.size(): x = z3.simplify(z3.Extract(h, 0, x)); y = z3.simplify(z3.Extract(h, 0, y))
+            for _ in range(2):
+                kz = _tz(x)
+                if 0 < kz <= l and kz < x.size():
+                    x = z3.simplify(z3.Extract(x.size() - 1, kz, x)); y = z3.simplify(z3.Extract(y.size() - 1 - kz, 0, y)); h -= kz; l -= kz
+                    if h + 1 < x.size(): x = z3.simplify(z3.Extract(h, 0, x)); y = z3.simplify(z3.Extract(h, 0, y))
+                x, y = y, x
+            r = z3.simplify(z3.Extract(h, l, x * y))
+        elif any(not c.eq(o_) for c, o_ in zip(ch, t.children())): r = t.decl()(*ch)
+    _DB[k] = (t, r); return r
 def eqg(o, ref):
     if isinstance(o, RV): return REq(o.r, ref)
+    if z3.is_bv(o) and o.size() <= 16:
+        try: o = demand_mul(z3.simplify(o))
+        except z3.Z3Exception: pass
     return o == ref
 def mode_of(t): return 'real' if isflt(t) else 'fp'
 def sfx_of(t): return '.real' if isflt(t) else ''
@@ -311,7 +346,8 @@ def job_mul(t, shapes, U=None):
     def run(S):
         for (K, R) in shapes:
             sp = spec_mul(K, R, has_vm(t, K, R))
-            S.check_fn(U, 'mul_%d%d' % (K, R), mkspec(sp), mode=mode_of(t), name='%s.mul_%d%d%s' % (U.name, K, R, sfx_of(t)), mutant=mktwin(sp), timeout=S.cap(30, 90),
+            S.check_fn(U, 'mul_%d%d' % (K, R), mkspec(sp), mode=mode_of(t), name='%s.mul_%d%d%s' % (U.name, K, R, sfx_of(t)), mutant=mktwin(sp), timeout=S.cap(30, 90), solver='portfolio' if t in ('i8', 'u8') else 'z3',      # 8-bit vec4 operands are packed into one i32 by clang (splat = multiply by 0x01010101): cvc5 int-blasting untangles that
+                      
                        bounds='all entry values; ' + ('rounding-erased' if isflt(t) else 'modulo 2^%d' % width(t)))
             fp_validate(S, U, 'mul_%d%d' % (K, R), t)
     return run
